@@ -107,7 +107,11 @@ class Canonicalizer:
                 return numerator
             if numerator == denominator:
                 return One()
-            return numerator / denominator  # TODO
+            if isinstance(numerator, Fraction) or isinstance(denominator, Fraction):
+                # dividing by (or dividing) a fraction rearranges the parts into
+                # a new fraction, which is not necessarily in canonical form yet
+                return self.canonicalize(numerator / denominator)
+            return numerator / denominator
         elif isinstance(expression, One | Zero):
             return expression
         else:
